@@ -140,6 +140,26 @@ def check(ctx):
         ctx.ob('C07.3', func, rnode, ok,
                'the victim is recorded in %s before it is removed' % mname,
                construct='record before removal')
+    # the map lives for the whole walk: the victims of one scan are still
+    # known when the walk reaches them
+    resets = [n for n in body if n.kind == 'stmt' and (
+        isinstance(n.ast, (ast.Assign, ast.AugAssign, ast.AnnAssign)) and
+        any(N.txt(t) == mname for t in (
+            n.ast.targets if isinstance(n.ast, ast.Assign)
+            else [n.ast.target])) or any(
+                K.is_meth(c, 'clear') and K.recv_text(c) == mname
+                for c in C.node_calls(n)))]
+    inits = [n for n in graph.nodes if n not in body and n.kind == 'stmt'
+             and isinstance(n.ast, ast.Assign) and
+             any(N.txt(t) == mname for t in n.ast.targets)]
+    ctx.ob('C07.3', func, resets[0] if resets else
+           (inits[0] if inits else head),
+           not resets and bool(inits),
+           '%s is created before the walk and never re-initialised inside '
+           'it' % mname if not resets else
+           '%s is re-initialised inside the walk: victims of an earlier '
+           'scan are forgotten and never restored' % mname,
+           construct='restore map lifetime')
     val = mnode.ast.value
     vtxt = K.rtxt(func, val)
     ctx.ob('C07.3', func, mnode,
